@@ -147,12 +147,12 @@ theorem packName_textOf {ls : List Bytes} (hne : ls ≠ []) (hok : LabelsOK ls)
   simp [h1, h3, textOf_getLast ls hne, h4]
 
 theorem decodes_enc : ∀ (ls : List Bytes) (pre tail : Bytes), LabelsOK ls →
-    Decodes (pre ++ encLabels ls ++ 0 :: tail) pre.length ls 0 (pre.length + (encLabels ls).length + 1) := by
+    Decodes 0 (pre ++ encLabels ls ++ 0 :: tail) pre.length ls 0 (pre.length + (encLabels ls).length + 1) := by
   intro ls
   induction ls with
   | nil =>
     intro pre tail _
-    have := @Decodes.nil (pre ++ encLabels [] ++ 0 :: tail) pre.length tail (by simp [encLabels])
+    have := @Decodes.nil 0 (pre ++ encLabels [] ++ 0 :: tail) pre.length tail (by simp [encLabels])
     simpa [encLabels] using this
   | cons l ls ih =>
     intro pre tail hok
@@ -182,7 +182,7 @@ theorem name_roundtrip_nocomp (n : Bytes) (pos : Bytes) (hc : Canonical n) :
   · subst hroot
     refine ⟨[0], by simp [packName], ?_⟩
     intro pre post
-    have hd := @Decodes.nil (pre ++ [0] ++ post) pre.length post (by simp)
+    have hd := @Decodes.nil 0 (pre ++ [0] ++ post) pre.length post (by simp)
     have := decodes_unpackName hd (by simp [textOf]) (by omega)
     simpa [textOf, fin] using this
   · refine ⟨encLabels ls ++ [0], ?_, ?_⟩
@@ -197,19 +197,19 @@ theorem name_roundtrip_nocomp (n : Bytes) (pos : Bytes) (hc : Canonical n) :
 offset of `msg` where unpacking yields that suffix within the pointer budget (`CompInv`), then
 packing a canonical name at the end of `msg` succeeds, keeps the invariant for the extended
 message, and `Name.unpack` of the packed bytes returns the name and the offset after them. -/
-theorem name_roundtrip_comp (msg : Bytes) (m : CompMap) (n : Bytes)
-    (hinv : CompInv msg m) (hc : Canonical n) :
+theorem name_roundtrip_comp {k : Nat} (msg : Bytes) (m : CompMap) (n : Bytes)
+    (hinv : CompInv k msg m) (hk : k ≤ msg.length) (hc : Canonical n) :
     ∃ bs m', packName n msg (some m) = .ok (bs, some m') ∧
-      CompInv (msg ++ bs) m' ∧
+      CompInv k (msg ++ bs) m' ∧
       ∀ post, unpackName (msg ++ bs ++ post) msg.length = .ok (n, msg.length + bs.length) := by
   rcases hc with ⟨hlen, hroot | ⟨ls, hne, hok, rfl⟩⟩
   · subst hroot
     refine ⟨[0], m, by simp [packName], hinv.append _, ?_⟩
     intro post
-    have hd := @Decodes.nil (msg ++ [0] ++ post) msg.length post (by simp)
+    have hd := @Decodes.nil k (msg ++ [0] ++ post) msg.length post (by simp)
     have := decodes_unpackName hd (by simp [textOf]) (by omega)
     simpa [textOf, fin] using this
-  · rcases packLabels_compInv msg ls m hok hlen hinv with ⟨hinv', d, h10, hd⟩
+  · rcases packLabels_compInv msg hk ls m hok hlen hinv with ⟨hinv', d, h10, hd⟩
     refine ⟨(packLabels msg ls [] m).1, (packLabels msg ls [] m).2, ?_, hinv', ?_⟩
     · rw [packName_textOf hne hok hlen, packLoop_labels_some msg ls [] m hok]
     · intro post
@@ -241,7 +241,7 @@ def SeqStatement : Prop :=
       ∀ q ∈ (l.map Prod.snd).zip starts, ∃ o, unpackName final q.2 = .ok (q.1, o)
 
 theorem packSeq_sound : ∀ (l : List (Bytes × Bytes)) (msg : Bytes) (m : CompMap),
-    CompInv msg m → (∀ p ∈ l, Canonical p.2) →
+    CompInv 0 msg m → (∀ p ∈ l, Canonical p.2) →
     ∀ final starts, packSeq l msg m = .ok (final, starts) →
       (∃ ext, final = msg ++ ext) ∧
       ∀ q ∈ (l.map Prod.snd).zip starts, ∃ o, unpackName final q.2 = .ok (q.1, o) := by
@@ -255,7 +255,7 @@ theorem packSeq_sound : ∀ (l : List (Bytes × Bytes)) (msg : Bytes) (m : CompM
     intro msg m hinv hcan final starts h
     rcases p with ⟨gap, n⟩
     have hc : Canonical n := hcan (gap, n) (by simp)
-    rcases name_roundtrip_comp (msg ++ gap) m n (hinv.append gap) hc with ⟨bs, m', hp, hinv', hun⟩
+    rcases name_roundtrip_comp (msg ++ gap) m n (hinv.append gap) (Nat.zero_le _) hc with ⟨bs, m', hp, hinv', hun⟩
     rw [packSeq, hp] at h
     simp only [] at h
     cases hrec : packSeq r (msg ++ gap ++ bs) m' with
@@ -280,7 +280,7 @@ theorem packSeq_sound : ∀ (l : List (Bytes × Bytes)) (msg : Bytes) (m : CompM
 /-- **Name compression never changes the decoded names**: every name of a sequence packed with a
 shared compression map, with arbitrary other bytes in between, unpacks to itself. -/
 theorem seq_holds : SeqStatement := fun l hcan final starts h =>
-  (packSeq_sound l [] [] (compInv_nil _) hcan final starts h).2
+  (packSeq_sound l [] [] (compInv_nil 0 _) hcan final starts h).2
 
 /-- The old witness of finding `ptr-depth`: "a.", "a.a.", …, twelve names each one label longer
 than the previous one. -/
